@@ -137,6 +137,7 @@ static void fresh_compress(void)
 }
 
 /* feed the whole image (random samples) */
+static int raw_lines_mode = 0;
 static void feed_image(j_compress_ptr c)
 {
   int prec = c->data_precision;
@@ -152,8 +153,16 @@ static void feed_image(j_compress_ptr c)
       for (r = 0; r < (int)nr; r++) rows[ci][r] = (char *)planes[ci] + (size_t)r * w * (prec <= 8 ? 1 : 2);
       img[ci] = rows[ci];
     }
+    /* the documented caller loop: offer num_lines (>= one iMCU row), advance by what the library accounts for */
+    if (raw_lines_mode == 1) lines *= 2; else if (raw_lines_mode == 2) lines *= 3;
+    else if (raw_lines_mode == 3) lines = c->image_height > lines ? c->image_height : lines; else if (raw_lines_mode == 4) lines += 1;
     while (c->next_scanline < c->image_height) {
       JDIMENSION got;
+      for (ci = 0; ci < c->num_components; ci++) {      /* fresh samples for every iMCU row */
+        jpeg_component_info *cp = &c->comp_info[ci];
+        size_t w = (size_t)cp->width_in_blocks * DCTSIZE, nr = cp->v_samp_factor * DCTSIZE, k;
+        for (k = 0; k < w * nr; k++) { if (prec <= 8) ((unsigned char *)planes[ci])[k] = rnd() & 0xFF; else ((short *)planes[ci])[k] = rnd() & ((1 << prec) - 1); }
+      }
       if (prec <= 8) got = jpeg_write_raw_data(c, (JSAMPIMAGE)img, lines);
       else got = jpeg12_write_raw_data(c, (J12SAMPIMAGE)img, lines);
       if (got == 0) break;
@@ -392,7 +401,9 @@ static void do_tjseq(char *p)
 }
 
 /* ---------------------------------------------------------------- setup stream */
-static void do_setup(char *p)
+static int quiet = 0, no_restart = 0, setup_nc, setup_raw; static unsigned setup_w, setup_h;
+#define OUT if (!quiet) printf
+static int do_setup(char *p)
 {
   long W = nextl(&p), H = nextl(&p), incomp = nextl(&p), ncomp = nextl(&p), prec = nextl(&p);
   long lossless = nextl(&p), raw = nextl(&p), arith = nextl(&p), opt = nextl(&p), smooth = nextl(&p);
@@ -415,8 +426,8 @@ static void do_setup(char *p)
   prng = (unsigned)(W * 31 + H * 17 + ncomp);
   fresh_compress();
   if (setjmp(jb)) {
-    if (started) printf(" ; err %s # -\n", err_name(last_err)); else printf("err %s # -\n", err_name(last_err));
-    jpeg_destroy_compress(&cc); return;
+    if (started) { OUT(" ; err %s", err_name(last_err)); } else { OUT("err %s", err_name(last_err)); }
+    jpeg_destroy_compress(&cc); return 0;
   }
   set_dest(&cc, 4096);
   /* defaults with a valid component count, then every field written directly */
@@ -433,23 +444,94 @@ static void do_setup(char *p)
   }
   if (lossless) jpeg_enable_lossless(&cc, 1, 0);
   if (ns) { cc.scan_info = scans; cc.num_scans = ns; }
-  cc.restart_interval = (unsigned int)ri; cc.restart_in_rows = (int)rir;
+  cc.restart_interval = no_restart ? 0 : (unsigned int)ri; cc.restart_in_rows = no_restart ? 0 : (int)rir;
   cc.raw_data_in = (boolean)raw; cc.arith_code = (boolean)arith; cc.optimize_coding = (boolean)opt;
   cc.smoothing_factor = (int)smooth;
   jpeg_start_compress(&cc, TRUE);
   started = 1;
-  printf("start %d %d %u |", cc.max_h_samp_factor, cc.max_v_samp_factor, cc.total_iMCU_rows);
-  for (i = 0; i < cc.num_components; i++) printf(" %u,%u", cc.comp_info[i].width_in_blocks, cc.comp_info[i].height_in_blocks);
-  printf(" | %d %u %u %u |", cc.blocks_in_MCU, cc.MCUs_per_row, cc.MCU_rows_in_scan, cc.restart_interval);
-  for (i = 0; i < cc.blocks_in_MCU; i++) printf(" %d", cc.MCU_membership[i]);
+  OUT("start %d %d %u |", cc.max_h_samp_factor, cc.max_v_samp_factor, cc.total_iMCU_rows);
+  for (i = 0; i < cc.num_components; i++) OUT(" %u,%u", cc.comp_info[i].width_in_blocks, cc.comp_info[i].height_in_blocks);
+  OUT(" | %d %u %u %u |", cc.blocks_in_MCU, cc.MCUs_per_row, cc.MCU_rows_in_scan, cc.restart_interval);
+  for (i = 0; i < cc.blocks_in_MCU; i++) OUT(" %d", cc.MCU_membership[i]);
   feed_image(&cc);
   jpeg_finish_compress(&cc);
-  printf(" ; ok");
-  {
-    unsigned w = cc.image_width, h = cc.image_height; int nc = cc.num_components, rawin = cc.raw_data_in;
-    jpeg_destroy_compress(&cc);
-    print_oracle(rawin, w, h, nc);
+  OUT(" ; ok");
+  setup_w = cc.image_width; setup_h = cc.image_height; setup_nc = cc.num_components; setup_raw = cc.raw_data_in;
+  jpeg_destroy_compress(&cc);
+  return 1;
+}
+
+
+/* coefficient arrays of two streams equal?  1 yes, 0 no, -1 a stream cannot be read */
+static int same_coefficients(const unsigned char *a, size_t la, const unsigned char *b, size_t lb)
+{
+  struct jpeg_decompress_struct d[2]; struct jpeg_error_mgr e[2]; jvirt_barray_ptr *co[2]; volatile int made = 0; int k, ci, res = 1;
+  if (setjmp(jb)) { for (k = 0; k < made; k++) jpeg_destroy_decompress(&d[k]); return -1; }
+  for (k = 0; k < 2; k++) {
+    d[k].err = jpeg_std_error(&e[k]); e[k].error_exit = my_exit; e[k].emit_message = my_emit; e[k].output_message = my_output;
+    jpeg_create_decompress(&d[k]); made = k + 1;
+    jpeg_mem_src(&d[k], k ? b : a, (unsigned long)(k ? lb : la));
+    jpeg_read_header(&d[k], TRUE);
+    co[k] = jpeg_read_coefficients(&d[k]);
   }
+  if (d[0].num_components != d[1].num_components) res = 0;
+  for (ci = 0; res && ci < d[0].num_components; ci++) {
+    jpeg_component_info *c0 = &d[0].comp_info[ci], *c1 = &d[1].comp_info[ci]; JDIMENSION r;
+    if (c0->width_in_blocks != c1->width_in_blocks || c0->height_in_blocks != c1->height_in_blocks) { res = 0; break; }
+    for (r = 0; res && r < c0->height_in_blocks; r++) {
+      JBLOCKARRAY r0 = (*d[0].mem->access_virt_barray) ((j_common_ptr)&d[0], co[0][ci], r, 1, FALSE);
+      JBLOCKARRAY r1 = (*d[1].mem->access_virt_barray) ((j_common_ptr)&d[1], co[1][ci], r, 1, FALSE);
+      if (memcmp(r0[0], r1[0], (size_t)c0->width_in_blocks * sizeof(JBLOCK))) res = 0;
+    }
+  }
+  for (k = 0; k < 2; k++) jpeg_destroy_decompress(&d[k]);
+  return res;
+}
+
+/* restart interval in force (last DRI, 0 = none) at every SOS of the stream */
+static void print_dri(const unsigned char *s, size_t n)
+{
+  size_t i = 2; unsigned dri = 0; int first = 1;
+  printf(" dri=");
+  while (i + 3 < n) {
+    int m; size_t l;
+    if (s[i] != 0xFF) { i++; continue; }
+    m = s[i + 1];
+    if (m == 0xFF) { i++; continue; }
+    if (m == 0xD9) break;
+    if (m == 0x00 || (m >= 0xD0 && m <= 0xD7) || m == 0x01) { i += 2; continue; }
+    l = ((size_t)s[i + 2] << 8) | s[i + 3];
+    if (m == 0xDD && i + 5 < n) dri = ((unsigned)s[i + 4] << 8) | s[i + 5];
+    if (m == 0xDA) { printf("%s%u", first ? "" : ",", dri); first = 0; }
+    i += 2 + l;
+  }
+}
+
+/* variant 0: setup.  1: rst = also encode without restarts and compare the coefficients.
+   2: raw MODE ... = raw-data input offering MODE-dependent num_lines; reference = one iMCU row per call */
+static void do_setup_variant(char *p, int variant)
+{
+  unsigned char *ref = NULL; size_t reflen = 0; int ok;
+  raw_lines_mode = 0; no_restart = 0; quiet = 0;
+  if (variant == 2) raw_lines_mode = (int)strtol(p, &p, 10);
+  if (variant) {
+    int keep = raw_lines_mode;
+    quiet = 1; if (variant == 1) no_restart = 1; else raw_lines_mode = 0;
+    if (do_setup(p)) { reflen = dest.len; ref = malloc(reflen + 1); memcpy(ref, dest.data, reflen); }
+    quiet = 0; no_restart = 0; raw_lines_mode = keep;
+  }
+  ok = do_setup(p);
+  raw_lines_mode = 0;
+  if (!ok) { printf(" # -\n"); free(ref); return; }
+  if (variant == 1) print_dri(dest.data, dest.len);
+  {
+    char ob[256];
+    oracle(dest.data, dest.len, setup_raw, ob, sizeof(ob));
+    printf(" # %s exp=%ux%ux%d", ob, setup_w, setup_h, setup_nc);
+    if (variant) printf(" same=%d", ref ? same_coefficients(ref, reflen, dest.data, dest.len) : -2);
+    printf("\n");
+  }
+  free(ref);
 }
 
 /* ------------------------------------------------------------ coefficient input */
@@ -610,7 +692,9 @@ int main(void)
     while (*p && *p != ' ' && *p != '\n' && k < 15) cmd[k++] = *p++;
     cmd[k] = 0;
     alarm(60);                      /* CPU/wall cap per case: a hang kills the process */
-    if (!strcmp(cmd, "setup")) do_setup(p);
+    if (!strcmp(cmd, "setup")) do_setup_variant(p, 0);
+    else if (!strcmp(cmd, "rst")) do_setup_variant(p, 1);
+    else if (!strcmp(cmd, "raw")) do_setup_variant(p, 2);
     else if (!strcmp(cmd, "blk")) do_blk(p);
     else if (!strcmp(cmd, "coef")) do_coef(p);
     else if (!strcmp(cmd, "qt")) do_qt(p);
